@@ -20,6 +20,7 @@ import LinVerif.Lemmas.C06Reset
 import LinVerif.Lemmas.C06Micro
 import LinVerif.Lemmas.C06Sync
 import LinVerif.Lemmas.C06Msync
+import LinVerif.Lemmas.C06Glue
 import LinVerif.Model.FanOutPark
 import LinVerif.Model.C06Woken
 import LinVerif.Generated.C06
@@ -1128,6 +1129,141 @@ theorem expire_tie :
        "p.stopReplicator"] ∧
     Generated.C06.isExpireConds.getLast? = some "!consumerGroup.IsEmpty()" ∧
     Generated.C06.isExpireLoop = ["call:log.GetOrCreateConsumerGroup", "if:continue", "call:p.stopReplicator"] := by decide
+
+/-! ## Round 12: the replicator's glue (replica/replicator.go, Model/C06Glue.lean): index ↔ sequence
+conversions, the rewind `ResetReplicaIndex`, the replay at the start of a local replicator -/
+
+/-- the bodies of the replicator's conversion methods, of `partition.ResetReplicaIndex`, and the
+argument of the rewind in `NewLocalReplicator`, as they are in the source of this run -/
+theorem replicator_glue_tie :
+    Generated.C06.replReplicaIndexBody = ["return r.channel.ConsumerGroup.ConsumedSeq() + 1"] ∧
+    Generated.C06.replAckIndexBody = ["return r.channel.ConsumerGroup.AcknowledgedSeq()"] ∧
+    Generated.C06.replAppendIndexBody = ["return r.channel.ConsumerGroup.Queue().Queue().AppendedSeq() + 1"] ∧
+    Generated.C06.replResetReplicaIndexBody = ["r.channel.ConsumerGroup.SetConsumedSeq(idx - 1)"] ∧
+    Generated.C06.replResetAppendIndexBody = ["r.channel.ConsumerGroup.Queue().SetAppendedSeq(idx - 1)"] ∧
+    Generated.C06.replSetAckIndexBody = ["r.channel.ConsumerGroup.Ack(ackIdx)"] ∧
+    Generated.C06.replIgnoreMessageBody =
+      ["currentAck := r.AckIndex()", "if currentAck+1 == replicaIdx {", "r.SetAckIndex(replicaIdx)", "}"] ∧
+    Generated.C06.replConsumeBody = ["return r.channel.ConsumerGroup.Consume()"] ∧
+    Generated.C06.replPendingBody = ["return r.channel.ConsumerGroup.Pending()"] ∧
+    Generated.C06.localStartResetArgs = ["lr.AckIndex() + 1"] ∧
+    Generated.C06.partitionResetReplicaIndexBody = ["p.log.SetAppendedSeq(idx - 1)"] := by decide
+
+open LinVerif.FanOut.Glue in
+/-- `ResetReplicaIndex(idx)`: afterwards `ReplicaIndex() = idx`, the acknowledged position and every
+other group are untouched, the positions are written through; and it is an operation of the reset-free
+alphabet exactly when `AckIndex()+1 ≤ idx ≤ AppendIndex()` -/
+theorem reset_replica_index (v : Variant) (s : State) (g : Nat) (grp : Group) (idx : Int)
+    (hl : lookup s.live g = some grp) :
+    step v s (resetReplicaIndex g idx) = (s.putGroup g { grp with consumed := idx - 1 }, .done) ∧
+    (∀ grp', lookup (step v s (resetReplicaIndex g idx)).1.live g = some grp' →
+      replicaIndex grp' = idx ∧ ackIndex grp' = ackIndex grp) ∧
+    ((resetReplicaIndex g idx).okAt s ↔ ackIndex grp + 1 ≤ idx ∧ idx ≤ appendIndex s.q) := by
+  have hst : step v s (resetReplicaIndex g idx) = (s.putGroup g { grp with consumed := idx - 1 }, .done) := by
+    simp only [resetReplicaIndex, FanOut.step, hl]
+  refine ⟨hst, ?_, ?_⟩
+  · intro grp' h
+    rw [hst] at h
+    rw [putGroup_live_self] at h
+    cases h
+    exact ⟨by simp [replicaIndex], rfl⟩
+  · simp only [resetReplicaIndex, Op.okAt, ackIndex, appendIndex]
+    constructor
+    · intro h
+      have := h grp hl
+      omega
+    · intro h grp' hl'
+      rw [hl] at hl'; cases hl'
+      omega
+
+open LinVerif.FanOut.Glue in
+/-- The replay at the start of a local replicator ("reset replica index = ack index + 1, replay wal
+log") and every other rewind to a position `m` inside the window: from ANY state satisfying the
+invariants, for EVERY number `k` of messages ahead, `ResetReplicaIndex(m+1)` followed by `k` Consume calls
+hands out exactly m+1, m+2, …, m+k — in particular, for m = ack, every message the group has not
+acknowledged, once, in order —, each of them is readable (`Get` answers ok: GC cannot have removed it
+because the queue ack is at or below the group's ack), the acknowledged position stays where it was, and
+the queue is not touched. The rewind itself is inside the reset-free alphabet (`okAt`), so every theorem
+over `NoReset` histories applies to histories containing it. -/
+theorem replay_after_rewind (v : Variant) (s : State) (hb : Base s) (ha : Above s) (g : Nat) (grp : Group)
+    (hl : lookup s.live g = some grp) (hp : grp.paused = false) (m : Int) (hm : grp.ack ≤ m) (k : Nat)
+    (hk : m + k ≤ s.q.appended) :
+    (resetReplicaIndex g (m + 1)).okAt s ∧
+    results v s (resetReplicaIndex g (m + 1) :: List.replicate k (.consume g)) = .done :: seqFrom (m + 1) k ∧
+    (run v s (resetReplicaIndex g (m + 1) :: List.replicate k (.consume g))).q = s.q ∧
+    (∃ grp', lookup (run v s (resetReplicaIndex g (m + 1) :: List.replicate k (.consume g))).live g = some grp' ∧
+      grp'.consumed = m + k ∧ grp'.ack = grp.ack) ∧
+    (∀ i : Nat, i < k → (seqFrom (m + 1) k)[i]? = some (.val (m + 1 + i)) ∧ ∃ len, s.q.get (m + 1 + i) = .ok len) := by
+  obtain ⟨hst, _, hok⟩ := reset_replica_index v s g grp (m + 1) hl
+  have hm1 : m + 1 - 1 = m := by omega
+  rw [hm1] at hst
+  have hl1 := putGroup_live_self s g { grp with consumed := m }
+  obtain ⟨h1, h2, grp', h3, h4, h5, _⟩ := consume_replicate v g k (s.putGroup g { grp with consumed := m })
+    { grp with consumed := m } hl1 hp (by show m + (k : Int) ≤ s.q.appended; exact hk)
+  refine ⟨hok.mpr ⟨by simp only [ackIndex]; omega, by simp only [appendIndex]; omega⟩, ?_, ?_, ⟨grp', ?_, h4, h5⟩, ?_⟩
+  · simp only [results, hst]
+    rw [h1]
+  · simp only [run, hst]
+    rw [h2]; rfl
+  · simp only [run, hst]
+    exact h3
+  · intro i hi
+    refine ⟨seqFrom_get k (m + 1) i hi, hb.q.readable (m + 1 + i) ?_ ?_⟩
+    · have := ha g grp hl
+      omega
+    · omega
+
+open LinVerif.FanOut.Glue in
+/-- the start of a local replicator is that rewind with m = ack: it needs nothing but the ordering
+invariant to be inside the window -/
+theorem local_start_in_window (s : State) (hb : Base s) (ho : Order s) (g : Nat) (grp : Group)
+    (hl : lookup s.live g = some grp) :
+    localStart s g = [resetReplicaIndex g (grp.ack + 1)] ∧ ∀ o ∈ localStart s g, o.okAt s := by
+  have hls : localStart s g = [resetReplicaIndex g (grp.ack + 1)] := by simp [localStart, hl, ackIndex]
+  refine ⟨hls, ?_⟩
+  intro o ho'
+  rw [hls] at ho'
+  simp only [List.mem_singleton] at ho'
+  subst ho'
+  have := ho.live hb g grp hl
+  simp only [resetReplicaIndex, Op.okAt]
+  intro grp' hl'
+  rw [hl] at hl'; cases hl'
+  omega
+
+open LinVerif.FanOut.Glue in
+/-- `IgnoreMessage(idx)`: acknowledges `idx` exactly when it is the next one after the acknowledged
+position AND has been handed out (idx ≤ consumed: the window of `Ack`); in every other case the whole
+state is unchanged — after a rewind below `idx` in particular -/
+theorem ignore_message (v : Variant) (s : State) (g : Nat) (grp : Group) (idx : Int)
+    (hl : lookup s.live g = some grp) :
+    run v s (ignoreMessage s g idx) =
+      if grp.ack + 1 = idx ∧ idx ≤ grp.consumed then s.putGroup g { grp with ack := idx } else s := by
+  by_cases h1 : grp.ack + 1 = idx
+  · have hi : ignoreMessage s g idx = [.ack g idx] := by simp [ignoreMessage, hl, ackIndex, setAckIndex, h1]
+    rw [hi]
+    by_cases h2 : idx ≤ grp.consumed
+    · simp only [run, ack_inside v s g idx grp hl ⟨by omega, h2⟩, h1, h2, and_self, if_true]
+    · simp only [run, ack_window v s g idx grp hl (by omega), h1, h2, and_false, if_false]
+  · have hi : ignoreMessage s g idx = [] := by simp [ignoreMessage, hl, ackIndex, h1]
+    rw [hi]
+    simp [run, h1]
+
+open LinVerif.FanOut.Glue in
+/-- non-vacuity / the shapes: group 0 consumed up to 6, acknowledged 2; a local replicator starts
+(rewind to 2), four Consume calls hand out 3,4,5,6 again, all readable; IgnoreMessage(3) acknowledges 3,
+IgnoreMessage(5) (not the next one) and IgnoreMessage(4) after a rewind to 3 (not handed out again yet)
+change nothing -/
+example :
+    let s0 := run Variant.fixed State.init
+      ([.create 0] ++ List.replicate 8 (.append 5) ++ List.replicate 7 (.consume 0) ++ [.ack 0 2])
+    results Variant.fixed s0 (localStart s0 0 ++ List.replicate 4 (.consume 0)) = .done :: seqFrom 3 4 ∧
+    ((List.range 4).all fun i => (s0.q.get (3 + i) == .ok 5)) = true ∧
+    lookup (run Variant.fixed s0 (ignoreMessage s0 0 3)).live 0 = some { consumed := 6, ack := 3, paused := false } ∧
+    run Variant.fixed s0 (ignoreMessage s0 0 5) = s0 ∧
+    (let s1 := run Variant.fixed s0 [resetReplicaIndex 0 4, .ack 0 3]
+     lookup s1.live 0 = some { consumed := 3, ack := 3, paused := false } ∧ run Variant.fixed s1 (ignoreMessage s1 0 4) = s1) := by
+  decide
 
 /-! ## non-vacuity: the hypotheses are satisfied by non-trivial histories -/
 
